@@ -129,24 +129,24 @@ def helper_semantics(ck, P, h, buf, idx, L):
     ck.verdict("P-MUST", fn, "the helper has a complete and an incomplete exit", [] if kinds["complete"] and kinds["incomplete"] else [str(kinds)], str(kinds), nontrivial=False)
 
 
-def scan_reads(ck, P, f, body, init, scan, buf):
-    """the scan part as a whole (from the index initialisation to the end of the scan loop) over one symbolic buffer, with
+def scan_reads(ck, P, f, body, drain_st, scan, bname, qname, buf):
+    """the scan part as a whole (from the end of the drain to the end of the scan loop) over one symbolic buffer, with
     the first three iterations peeled: every index / struct.unpack of those iterations is proven in bounds - this also
-    covers state carried from one iteration to the next, which the per-statement conditions above do not see"""
+    covers state carried from one iteration to the next, which the one-iteration step relation does not see"""
     fn = "parse_space_packets"
-    if not init or body.index(init[-1]) > body.index(scan):
-        ck.unknown("X-BUF", fn, "scan part located", "index initialisation not found before the scan loop")
-        return
-    # start right after the drain loop, so that local definitions made before the index initialisation are included
-    others = [i for i, s_ in enumerate(body) if isinstance(s_, ast.While) and s_ is not scan and i < body.index(scan)]
-    start = (max(others) + 1) if others else body.index(init[-1])
     it = new_interp(P); env = Env()
     it.peel_depth = 3
-    env.vars.update(concatenated_packets=buf, analysis_queue=sym("analysis_queue", ty=("list", "bytes")), tm_list=sym("tm_list", ty=("list", "bytes")),
-                    ids_raw=sym("ids_raw", ty=("list", "int")))
+    names = {n.id for n in ast.walk(f.node) if isinstance(n, ast.Name)}
+    env.vars[bname] = buf
+    env.vars[qname] = sym("analysis_queue", ty=("list", "bytes"))
+    # locals defined ahead of the drain (result list, id table) are opaque here: only the reads matter
+    for s_ in body[:body.index(drain_st)]:
+        for n in ast.walk(s_):
+            if isinstance(n, ast.Name) and isinstance(n.ctx, ast.Store) and n.id not in env.vars:
+                env.vars[n.id] = sym(n.id, ty=("list", None))
     it.where.append(f.short)
     try:
-        it.block(body[min(start, body.index(init[-1])):body.index(scan) + 1], env, f.module, f, [])
+        it.block(body[body.index(drain_st) + 1:body.index(scan) + 1], env, f.module, f, [])
     except Unsupported as e:
         ck.unknown("X-BUF", fn, "scan part interpreted", str(e))
         return
@@ -155,206 +155,427 @@ def scan_reads(ck, P, f, body, init, scan, buf):
     ck.floor("reads of the scan part", n, 3)
 
 
+def find_drain(P, f):
+    """Locate the drain loop `while Q: B.extend(Q.popleft())` in f or in a function f calls directly.
+    -> (problems, buffer variable name in f, statement of f's body that completes the drain) or (problems, None, None)"""
+    probs = []
+
+    def drain_in(stmts):
+        for st in stmts:
+            if isinstance(st, ast.While) and isinstance(st.test, ast.Name):
+                return st
+        return None
+
+    def check_loop(loop, stmts, qname):
+        pr = []
+        if loop.test.id != qname:
+            pr.append(f"drain loop runs while `{ast.unparse(loop.test)}`, reference: while the queue is non-empty")
+        b = None
+        body = [x for x in loop.body if not (isinstance(x, ast.Expr) and isinstance(x.value, ast.Constant))]
+        if len(body) == 1 and isinstance(body[0], ast.Expr) and isinstance(body[0].value, ast.Call):
+            c = body[0].value
+            if isinstance(c.func, ast.Attribute) and c.func.attr == "extend" and isinstance(c.func.value, ast.Name) and len(c.args) == 1 \
+                    and ast.unparse(c.args[0]).replace(" ", "") == f"{qname}.popleft()":
+                b = c.func.value.id
+        elif len(body) == 1 and isinstance(body[0], ast.AugAssign) and isinstance(body[0].op, ast.Add) and isinstance(body[0].target, ast.Name) \
+                and ast.unparse(body[0].value).replace(" ", "") == f"{qname}.popleft()":
+            b = body[0].target.id
+        if b is None:
+            pr.append("the drain loop does not extend the buffer with popleft() (first-in first-out)")
+            return pr, None
+        if any(isinstance(n, (ast.Break, ast.Return)) for n in ast.walk(loop)) or loop.orelse:
+            pr.append("the drain loop can be left before the queue is empty")
+        pre = [x for x in stmts[:stmts.index(loop)] if isinstance(x, (ast.Assign, ast.AnnAssign)) and ast.unparse(x.targets[0] if isinstance(x, ast.Assign) else x.target) == b]
+        if not pre or pre[-1].value is None or ast.unparse(pre[-1].value) not in ("bytearray()", "bytearray(b'')"):
+            pr.append("the buffer does not start empty")
+        return pr, b
+
+    qname = f.node.args.args[0].arg
+    body = f.node.body
+    loop = drain_in(body)
+    if loop is not None:
+        pr, b = check_loop(loop, body, qname)
+        return pr, b, loop
+    # one level of helper: B = helper(queue)
+    for st in body:
+        if isinstance(st, (ast.Assign, ast.AnnAssign)) and isinstance(st.value, ast.Call) and isinstance(st.value.func, ast.Name):
+            tgt = st.targets[0] if isinstance(st, ast.Assign) else st.target
+            r = P.resolve(f.module, st.value.func.id)
+            g = P.funcs.get(r[1]) if r and r[0] == "func" else None
+            if g is None or not isinstance(tgt, ast.Name):
+                continue
+            loop = drain_in(g.node.body)
+            if loop is None:
+                continue
+            params = [a.arg for a in g.node.args.args]
+            args = [ast.unparse(a) for a in st.value.args] + [None] * len(params)
+            kws = {k.arg: ast.unparse(k.value) for k in st.value.keywords}
+            passed = {pn: (kws.get(pn) or args[i]) for i, pn in enumerate(params)}
+            qn = [pn for pn, v in passed.items() if v == qname]
+            if not qn:
+                continue
+            pr, b = check_loop(loop, g.node.body, qn[0])
+            last = g.node.body[-1]
+            if b is not None and not (isinstance(last, ast.Return) and last.value is not None and ast.unparse(last.value) == b and g.node.body.index(loop) < len(g.node.body) - 1
+                                      and not any(isinstance(n, ast.Return) for x in g.node.body[:-1] for n in ast.walk(x))):
+                pr.append(f"{g.short} does not return the drained buffer")
+            return pr, tgt.id, st
+    return None, None, None
+
+
+def resolve(t, facts, cache):
+    """choose the alternative of every gate the facts decide (top-down, deciding each gate with the entailment procedure)"""
+    from ..terms import gamma
+    if not isinstance(t, T):
+        return t
+    if t.k == "gamma":
+        c = t.a[0]
+        key = (show(c), len(facts))
+        if key not in cache:
+            if D.prove(facts, c)[0] == "proved":
+                cache[key] = True
+            elif D.prove(facts, un("not", c))[0] == "proved":
+                cache[key] = False
+            else:
+                cache[key] = None
+        r = cache[key]
+        if r is True:
+            return resolve(t.a[1], facts, cache)
+        if r is False:
+            return resolve(t.a[2], facts, cache)
+        return gamma(c, resolve(t.a[1], list(facts) + [c], {}), resolve(t.a[2], list(facts) + [un("not", c)], {}))
+    if t.k in ("list", "tuple"):
+        return T(t.k, tuple(resolve(x, facts, cache) for x in t.a[0]), ty=t.ty)
+    if t.k == "listext":
+        return T("listext", resolve(t.a[0], facts, cache), t.a[1], tuple(resolve(x, facts, cache) for x in t.a[2]), ty=t.ty)
+    return t
+
+
 def run(ck):
     P = Program(ck.repo)
     ck.explanation = (
         "Static check of the structural conditions from which lossless, ordered reassembly follows by induction over parser calls "
-        "(the induction itself is stated in DESIGN.md and not mechanised). The statement skeleton of parse_space_packets and its "
-        "helper is matched on the syntax tree (a restructured body yields an analysis error, never a verdict); every expression "
-        "in it is evaluated to a gated term by the abstract interpreter and compared semantically: (1) drain: the whole queue is "
-        "consumed in order into one buffer; (2) tail preservation: every exit of the scan loop either re-queues buf[idx:] or is "
-        "taken only when nothing is left / the helper has re-queued (the helper returns a non-zero code exactly on its re-queue "
-        "path); the short-header test is idx + 6 > len(buf); (3) contiguity: a returned packet is buf[idx : idx+total] and idx "
-        "advances by exactly total, a non-matching position advances by exactly 1; (4) the scanned id is the 13-bit packet id at "
-        "idx and the length field the 16-bit unsigned word at idx+4, total = field + 7, all equal to the C01 layout; (5) results "
-        "are appended to one list in scan order.")
+        "(the induction itself is stated in DESIGN.md and not mechanised). parse_space_packets is split at its scan loop; the drain "
+        "loop is matched on the syntax tree (in the function or one helper it calls), everything else is decided on the gated "
+        "terms of the abstract interpreter, whatever the statements look like: ONE ITERATION of the scan loop is interpreted from "
+        "an arbitrary loop-head state (helpers inlined, list arguments by reference) and its outcomes are compared with the "
+        "reference step relation: (a) the loop is left only when fewer than 6 octets remain or a registered id heads an incomplete "
+        "packet, and then the queue is exactly [buf[idx:]] (nothing if idx == len(buf)) and no packet is added; (b) a continuing "
+        "iteration has seen a full header; at a registered id the packet is complete, exactly buf[idx : idx+total] is appended, "
+        "idx advances by total = (unsigned 16-bit word at idx+4) + 7 and the queue stays empty; otherwise idx advances by exactly 1 "
+        "and nothing else changes; (c) the scanned id is (unsigned 16-bit word at idx) & 0x1FFF tested for membership in the raw() "
+        "words of the given ids; (d) the scan starts at index 0 with an empty result list, and the result list is what is returned.")
     for r, t in (("P-MUST", "every exit preserves the unconsumed tail; drain consumes everything in order"), ("W-VAL", "packet id / length field positions and masks == C01 layout"),
-                 ("X-PART", "returned slices are contiguous, skip is exactly one octet"), ("X-BUF", "reads in bounds")):
+                 ("X-PART", "returned slices are contiguous, skip is exactly one octet"), ("X-BUF", "reads in bounds"), ("D-TABLE", "registered-id test")):
         ck.rule(r, t)
     ck.trusted += ["the induction over calls from the per-call conditions (DESIGN.md 4/C13)", "collections.deque popleft/append semantics"]
     ck.assumptions += ["'for every fragmentation and interleaving' is not decided as such; only the per-call structural conditions are"]
     f = P.func(f"{SP}.parse_space_packets")
-    h = P.func(f"{SP}.__handle_packet_id_match")
-    it = new_interp(P)
     buf = sym("concatenated_packets", ty="bytes")
     idx = sym("current_idx", ty="int")
     L = length(buf)
 
     # ---------------------------------------------------------------- helper (semantic: its exits, whatever its statements)
-    fn = "__handle_packet_id_match"
-    helper_semantics(ck, P, h, buf, idx, L)
-    # in-bounds reads of the helper, given the caller's guarantee idx + 6 <= len(buf)
-    it2 = new_interp(P); env2 = Env()
-    env2.add_fact(binop(">=", idx, C(0)))
-    env2.add_fact(binop("<=", binop("+", idx, C(6)), L))
-    R.run_guarded(ck, "X-BUF", fn, "call", lambda: it2.call_func(h, [], dict(concatenated_packets=buf, analysis_queue=sym("analysis_queue", ty=("list", "bytes")), current_idx=idx,
-                                                                           tm_list=sym("tm_list", ty=("list", "bytes"))), env2))
-    D.check_xbuf(ck, it2, fn)
+    hq = f"spacepackets.{SP}.__handle_packet_id_match"
+    h = P.func(f"{SP}.__handle_packet_id_match") if any(q.endswith("__handle_packet_id_match") for q in P.funcs) else None
+    if h is not None and [a.arg for a in h.node.args.args] == ["concatenated_packets", "analysis_queue", "current_idx", "tm_list"]:
+        fn = "__handle_packet_id_match"
+        helper_semantics(ck, P, h, buf, idx, L)
+        # in-bounds reads of the helper, given the caller's guarantee idx + 6 <= len(buf)
+        it2 = new_interp(P); env2 = Env()
+        env2.add_fact(binop(">=", idx, C(0)))
+        env2.add_fact(binop("<=", binop("+", idx, C(6)), L))
+        R.run_guarded(ck, "X-BUF", fn, "call", lambda: it2.call_func(h, [], dict(concatenated_packets=buf, analysis_queue=sym("analysis_queue", ty=("list", "bytes")), current_idx=idx,
+                                                                               tm_list=sym("tm_list", ty=("list", "bytes"))), env2))
+        D.check_xbuf(ck, it2, fn)
 
     # ---------------------------------------------------------------- main function
     fn = "parse_space_packets"
     body = [s for s in f.node.body if not (isinstance(s, ast.Expr) and isinstance(s.value, ast.Constant))]
-    whiles = [s for s in body if isinstance(s, ast.While)]
-    if len(whiles) != 2:
-        ck.unknown("P-MUST", fn, "skeleton: drain loop, then scan loop", f"{len(whiles)} top-level while loops")
+    probs, bname, drain_st = find_drain(P, f)
+    if probs is None:
+        ck.unknown("P-MUST", fn, "drain loop located (while <queue>: <buffer>.extend(<queue>.popleft()) in the function or a helper it calls)", "not found")
         return
-    drain, scan = whiles
-    # (1) drain
-    probs = []
-    if ast.unparse(drain.test) != "analysis_queue":
-        probs.append(f"drain loop runs while `{ast.unparse(drain.test)}`, reference: while the queue is non-empty")
-    calls = [n for n in ast.walk(drain) if isinstance(n, ast.Call)]
-    src = ast.unparse(drain)
-    if "concatenated_packets.extend(analysis_queue.popleft())" not in src.replace("\n", " "):
-        probs.append("the drain loop does not extend the buffer with popleft() (first-in first-out)")
-    pre = [s for s in body[:body.index(drain)] if isinstance(s, ast.Assign) and ast.unparse(s.targets[0]) == "concatenated_packets"]
-    if not pre or ast.unparse(pre[-1].value) not in ("bytearray()", "bytearray(b'')"):
-        probs.append("the buffer does not start empty")
     ck.verdict("P-MUST", fn, "drain: every queued chunk is consumed, oldest first, into one initially empty buffer", probs, "while queue: buf.extend(queue.popleft())")
-    init = [s for s in body[body.index(drain):body.index(scan)] if isinstance(s, ast.Assign) and ast.unparse(s.targets[0]) == "current_idx"]
-    ck.verdict("P-MUST", fn, "the scan starts at index 0", [] if init and ast.unparse(init[-1].value) == "0" else ["current_idx is not initialised to 0 before the scan loop"], "current_idx = 0")
-    # whole scan part, three peeled iterations (independent of the statement skeleton matched below)
-    scan_reads(ck, P, f, body, init, scan, buf)
+    if bname is None:
+        return
+    top = [s for s in body if isinstance(s, (ast.While, ast.For)) and s is not drain_st and body.index(s) > body.index(drain_st)]
+    if len(top) != 1 or not isinstance(top[0], ast.While):
+        ck.unknown("P-MUST", fn, "scan loop located (the one loop after the drain)", f"{len(top)} loops after the drain")
+        return
+    scan = top[0]
     try:
-        scan_skeleton(ck, P, it, f, h, body, scan, buf, idx, L)
+        scan_step(ck, P, f, body, drain_st, scan, bname, buf, idx, L)
     except Unsupported as e:
-        ck.unknown("P-MUST", fn, "scan loop conditions evaluated statement by statement", f"the loop uses state the per-statement evaluation cannot resolve: {e}")
+        ck.unknown("P-MUST", fn, "one iteration of the scan loop interpreted", str(e))
+    mask = None
+    if "PACKET_ID_MASK" in P.syms.get(f"spacepackets.{SP}", {}):
+        mask = new_interp(P).module_const(f"spacepackets.{SP}", P.syms[f"spacepackets.{SP}"]["PACKET_ID_MASK"][1])
+        ck.verdict("K-CONST", SP, "PACKET_ID_MASK == 0x1FFF", [] if D.is_const(mask, 0x1FFF) else [show(mask)], "0x1FFF")
 
 
-def scan_skeleton(ck, P, it, f, h, body, scan, buf, idx, L):
+def scan_step(ck, P, f, body, drain_st, scan, bname, buf, idx, L):
+    from ..terms import substitute, subterms, truthy, gamma
     fn = "parse_space_packets"
-    # (2) scan loop skeleton
-    sbody = list(scan.body)
-    lead = []
-    while sbody and isinstance(sbody[0], (ast.Assign, ast.AnnAssign)) and not any(isinstance(n, ast.Call) for n in ast.walk(sbody[0])):
-        lead.append(sbody.pop(0))       # local definitions ahead of the short-header test are evaluated, not matched
-    if ast.unparse(scan.test) != "True" or len(sbody) < 3 or not isinstance(sbody[0], ast.If):
-        ck.unknown("P-MUST", fn, "scan loop skeleton: while True: if <short>: ...; break; id = ...; if id in ids: ... else: ...", "skeleton not recognised")
-        return
+    qname = f.node.args.args[0].arg
+    idsname = f.node.args.args[1].arg
+    it = new_interp(P)
+    it.where.append(f.short)
     env = Env()
-    q = sym("analysis_queue", ty=("list", "bytes"))
-    env.vars.update(concatenated_packets=buf, current_idx=idx, analysis_queue=q, tm_list=sym("tm_list", ty=("list", "bytes")), ids_raw=sym("ids_raw", ty=("list", "int")))
-    # loop-invariant local definitions made between the drain and the scan loop (e.g. a cached buffer length) are
-    # evaluated, provided the scan loop never reassigns them
-    stored_in_scan = {n_.id for n_ in ast.walk(scan) if isinstance(n_, ast.Name) and isinstance(n_.ctx, ast.Store)}
-    drain_i = max(i for i, s_ in enumerate(body) if isinstance(s_, ast.While) and s_ is not scan)
-    pre = [s_ for s_ in body[drain_i + 1:body.index(scan)] if isinstance(s_, ast.Assign) and len(s_.targets) == 1 and isinstance(s_.targets[0], ast.Name)
-           and s_.targets[0].id != "current_idx" and s_.targets[0].id not in stored_in_scan]
-    if pre:
-        it.block(pre, env, f.module, f, [])
-    if lead:
-        it.block(lead, env, f.module, f, [])
-    short = sbody[0]
-    cond = it.ev(short.test, env.clone(), f.module, f)
-    ck.verdict("P-MUST", fn, "the short-header test is idx + 6 > len(buf) (a complete 6-octet header is always examined, fewer octets never are)",
-               [] if cond_is(cond, binop("+", idx, C(6)), ">", L) else [f"test is {show(cond)[:100]}"], show(cond)[:80])
-    probs = []
-    if not short.body or not isinstance(short.body[-1], ast.Break):
-        probs.append("the short-header path does not leave the loop")
-    inner = [s for s in short.body if isinstance(s, ast.If)]
-    direct = appends(short.body, "analysis_queue")
-    if direct:
-        t = it.ev(direct[0].args[0], env.clone(), f.module, f)
-        if not slice_is(t, buf, idx, None):
-            probs.append(f"re-queues {show(t)[:60]}, reference buf[idx:]")
-    elif len(inner) == 1 and appends(inner[0].body, "analysis_queue") and not inner[0].orelse:
-        g = it.ev(inner[0].test, env.clone(), f.module, f)
-        if not cond_is(g, idx, "<", L):
-            probs.append(f"the tail is re-queued only when {show(g)[:60]}; reference: whenever idx < len(buf)")
-        t = it.ev(appends(inner[0].body, "analysis_queue")[0].args[0], env.clone(), f.module, f)
-        if not slice_is(t, buf, idx, None):
-            probs.append(f"re-queues {show(t)[:60]}, reference buf[idx:]")
-    else:
-        probs.append("the short-header exit does not re-queue the unconsumed tail")
-    ck.verdict("P-MUST", fn, "exit 'fewer than 6 octets left': the tail buf[idx:] is re-queued whenever it is non-empty", probs, "append(buf[idx:]) under idx < len(buf); break")
-    # (4) id extraction
-    e3 = env.clone()
-    e3.add_fact(un("not", cond))
-    rest = sbody[1:]
-    # one or more local definitions, then the registered-id test
-    n_def = 0
-    while n_def < len(rest) and isinstance(rest[n_def], (ast.Assign, ast.AnnAssign)):
-        n_def += 1
-    if n_def == 0 or n_def >= len(rest) or not isinstance(rest[n_def], ast.If):
-        ck.unknown("W-VAL", fn, "id extraction followed by the registered-id test", "skeleton not recognised")
-        return
-    it.block(rest[:n_def], e3, f.module, f, [])
-    tested = rest[n_def].test
-    pid_name = tested.left.id if isinstance(tested, ast.Compare) and isinstance(tested.left, ast.Name) else None
-    pid = e3.vars.get(pid_name) if pid_name else None
-    defs = rest[:n_def]
-    rest = [rest[n_def - 1]] + rest[n_def:]     # the remaining checks look at rest[0] (last definition) and rest[1] (the test)
-    ok = False
-    det = show(pid)[:100] if pid is not None else "?"
-    if pid is not None:
-        # symbolic position: compare structure (unsigned 16-bit word at idx) & 0x1FFF
-        w = T("unpacked", "!H", T("slice", buf, idx, binop("+", idx, C(2)), ty="bytes"), ty="int")
-        ok = pid.k == "op" and pid.a[0] == "&" and ((pid.a[1] == w and D.is_const(pid.a[2], 0x1FFF)) or (pid.a[2] == w and D.is_const(pid.a[1], 0x1FFF)))
-    ck.verdict("W-VAL", fn, "scanned id == (unsigned 16-bit word at idx) & 0x1FFF = the 13-bit packet identification of the C01 layout", [] if ok else [det], det)
-    sel = rest[1]
-    t = it.ev(sel.test, e3.clone(), f.module, f)
-    ok = t.k == "op" and t.a[0] == "in" and t.a[1] == pid
-    ck.verdict("D-TABLE", fn, "a position is a packet start exactly when its id is among the registered ids", [] if ok else [show(t)[:80]], show(t)[:60])
-    ids_assign = [s for s in body if isinstance(s, ast.Assign) and ast.unparse(s.targets[0]) == "ids_raw"]
-    ok = bool(ids_assign) and ast.unparse(ids_assign[0].value).replace(" ", "") == "[packet_id.raw()forpacket_idinpacket_ids]"
-    ck.verdict("D-TABLE", fn, "registered ids are the raw() words of the given packet ids", [] if ok else [ast.unparse(ids_assign[0].value) if ids_assign else "missing"], "list of raw()")
-    # matched branch: helper call wiring and exit under non-zero result
-    probs = []
-    calls = [n for n in ast.walk(ast.Module(body=sel.body, type_ignores=[])) if isinstance(n, ast.Call) and ast.unparse(n.func).endswith("__handle_packet_id_match")]
-    if len(calls) != 1:
-        probs.append(f"{len(calls)} helper calls on the matched path")
-    else:
-        kw = {k.arg: ast.unparse(k.value) for k in calls[0].keywords}
-        pos = [ast.unparse(a) for a in calls[0].args]
-        names = [a.arg for a in h.node.args.args]
-        for i, a in enumerate(pos):
-            kw[names[i]] = a
-        if kw != {"concatenated_packets": "concatenated_packets", "analysis_queue": "analysis_queue", "current_idx": "current_idx", "tm_list": "tm_list"}:
-            probs.append(f"helper called with {kw}")
-        asg = [s for s in sel.body if isinstance(s, ast.Assign) and isinstance(s.value, ast.Call)]
-        if not asg or ast.unparse(asg[0].targets[0]).replace(" ", "") not in ("(result,current_idx)", "result,current_idx"):
-            probs.append("the helper's (code, index) result is not taken over as (result, current_idx)")
-        brk = [s for s in sel.body if isinstance(s, ast.If)]
-        okb = False
-        for b in brk:
-            bt = ast.unparse(b.test).replace(" ", "")
-            if bt in ("result!=0", "result", "result==-1", "result<0") and b.body and isinstance(b.body[-1], ast.Break) and not appends(b.body, "tm_list"):
-                okb = True
-        if not okb:
-            probs.append("the loop is not left when the helper reports a re-queued partial packet")
-        if len([s for s in sel.body if isinstance(s, ast.Break)]) > 0:
-            probs.append("the matched path leaves the loop unconditionally")
-    ck.verdict("P-MUST", fn, "exit 'partial packet': taken exactly when the helper returned non-zero, i.e. after it re-queued buf[idx:]; otherwise the scan continues at the advanced index", probs,
-               "result, idx = helper(...); if result != 0: break")
-    # non-matching branch: advance by exactly one
-    probs = []
-    e4 = e3.clone()
-    if len(sel.orelse) != 1 or not isinstance(sel.orelse[0], (ast.AugAssign, ast.Assign)):
-        probs.append(f"the non-matching path is `{ast.unparse(ast.Module(body=sel.orelse, type_ignores=[]))[:60]}`")
-    else:
-        it.block(sel.orelse, e4, f.module, f, [])
-        nv = e4.vars.get("current_idx")
-        if not lin_eq(nv, binop("+", idx, C(1))):
-            probs.append(f"index becomes {show(nv)[:40]}, reference idx + 1")
-    ck.verdict("X-PART", fn, "a position that is not a registered id is skipped by exactly one octet", probs, "current_idx += 1")
-    # no other exits
-    exits = [n for n in ast.walk(scan) if isinstance(n, (ast.Break, ast.Return))]
-    ck.verdict("P-MUST", fn, "the scan loop has exactly the two exits checked above", [] if len(exits) == 2 else [f"{len(exits)} break/return statements in the scan loop"], "2 exits")
-    last = body[-1]
-    ck.verdict("P-MUST", fn, "the packets found are returned (one list, in scan order)", [] if isinstance(last, ast.Return) and ast.unparse(last.value) == "tm_list" else ["last statement is not `return tm_list`"], "return tm_list")
-    early = [s for s in body if isinstance(s, ast.If) and ast.unparse(s.test).replace(" ", "") == "notanalysis_queue"]
-    ok = all(isinstance(s.body[-1], ast.Return) and ast.unparse(s.body[-1].value) == "tm_list" for s in early)
-    ck.verdict("P-MUST", fn, "an empty queue returns the empty list and leaves the queue untouched", [] if ok else ["early exit returns something else"], "return tm_list", nontrivial=False)
-    # in-bounds reads of the scan body under the negated short-header test
-    it3 = new_interp(P); env3 = Env()
-    env3.vars.update(concatenated_packets=buf, current_idx=idx)
-    env3.add_fact(binop(">=", idx, C(0)))
-    env3.add_fact(un("not", cond))
-    it3.where.append(f.short)
+    q_in = sym(qname, ty=("list", "bytes"))
+    ids_in = sym(idsname, ty=("list", f"spacepackets.{SP}.PacketId"))
+    env.vars[qname] = q_in
+    env.vars[idsname] = ids_in
+    # ---- everything ahead of the scan loop: interpreted (the drain is summarised; its effect was matched above)
+    exits0 = []
+    it.quiet += 1
     try:
-        it3.block(defs, env3, f.module, f, [])
-        D.check_xbuf(ck, it3, fn)
-    except Unsupported as e:
-        ck.unknown("X-BUF", fn, "id read", str(e))
-    mask = it.module_const(f"spacepackets.{SP}", P.syms[f"spacepackets.{SP}"]["PACKET_ID_MASK"][1]) if "PACKET_ID_MASK" in P.syms.get(f"spacepackets.{SP}", {}) else None
-    ck.verdict("K-CONST", SP, "PACKET_ID_MASK == 0x1FFF", [] if mask is not None and D.is_const(mask, 0x1FFF) else [show(mask) if mask is not None else "missing"], "0x1FFF")
+        it.block(body[:body.index(scan)], env, f.module, f, exits0)
+    finally:
+        it.quiet -= 1
+    if env.dead:
+        ck.unknown("P-MUST", fn, "the scan loop is reachable", "the statements before it always leave the function")
+        return
+    stored = {n.id for n in ast.walk(scan) if isinstance(n, ast.Name) and isinstance(n.ctx, ast.Store)}
+    zero_ints = [k for k in stored if k in env.vars and D.is_const(env.vars[k], 0) and env.vars[k].a[0] is not False]
+    carried = [k for k in stored if k in env.vars]
+    if len(zero_ints) != 1:
+        ck.verdict("P-MUST", fn, "the scan starts at index 0", [f"no unique scan index initialised to 0 before the loop (candidates {sorted(zero_ints)}, loop variables {sorted(carried)})"], "")
+        return
+    iname = zero_ints[0]
+    ck.verdict("P-MUST", fn, "the scan starts at index 0", [], f"{iname} = 0")
+    last = body[-1]
+    tname = ast.unparse(last.value) if isinstance(last, ast.Return) and isinstance(last.value, ast.Name) else None
+    if tname is None or tname not in env.vars:
+        ck.unknown("P-MUST", fn, "the packets found are returned (one list, in scan order)", "last statement is not `return <list>`")
+        return
+    ck.verdict("P-MUST", fn, "the result list starts empty", [] if env.vars[tname].k == "list" and not env.vars[tname].a[0] else [f"{tname} is {show(env.vars[tname])[:60]} when the scan starts"], "[]")
+    ok = all(v.k == "list" and not v.a[0] for _pc, v, _h, _f in exits0)
+    ck.verdict("P-MUST", fn, "an early exit (empty queue) returns the empty list", [] if ok else ["early exit returns something else"], f"{len(exits0)} early exits", nontrivial=False)
+    extra = [k for k in carried if k not in (iname, tname, qname, bname)]
+    if extra:
+        ck.unknown("P-MUST", fn, "one iteration of the scan loop from an arbitrary loop-head state", f"the loop carries further state from one iteration to the next ({', '.join(sorted(extra))}); no invariant is inferred for it")
+        scan_reads(ck, P, f, body, drain_st, scan, bname, qname, buf)
+        return
+    if bname in stored:
+        ck.verdict("P-MUST", fn, "the buffer is not rebound while it is scanned", [f"{bname} is assigned inside the scan loop"], "")
+        return
+    # whole scan part, three peeled iterations
+    scan_reads(ck, P, f, body, drain_st, scan, bname, qname, buf)
+    # ---- loop-head state of an arbitrary iteration
+    tm0 = sym("tm_list", ty=("list", "bytes"))
+    q0 = T("list", (), ty=("list", "bytes"))
+    head = env.clone()
+    # locals computed from the drained buffer ahead of the loop (a cached length, ...) refer to the buffer being scanned
+    old_buf = env.vars.get(bname)
+    if old_buf is not None and old_buf != buf and old_buf.k == "sym":
+        for k_ in list(head.vars):
+            head.vars[k_] = substitute(head.vars[k_], {old_buf: buf})
+        head.facts = [substitute(x, {old_buf: buf}) for x in head.facts]
+    head.vars[bname] = buf
+    head.vars[iname] = idx
+    head.vars[tname] = tm0
+    head.vars[qname] = q0
+    head.add_fact(binop(">=", idx, C(0)))
+    it2 = new_interp(P)
+    it2.where.append(f.short)
+    it2.no_peel = True
+    it2.guarded_join = True
+    test_env = head.clone()
+    c = truthy(it2.ev(scan.test, test_env, f.module, f))
+    outcomes = []       # (kind, env)
+    if not D.is_const(c, True):
+        e = head.clone()
+        e.add_fact(un("not", c)); e.pc.append(un("not", c))
+        rets = []
+        if scan.orelse and not e.dead:
+            it2.block(scan.orelse, e, f.module, f, rets)
+        if not e.dead:
+            outcomes.append(("exit", e))
+    b = head.clone()
+    b.add_fact(c); b.pc.append(c)
+    frame = {"breaks": [], "kind": "while", "node": scan}
+    rets = []
+    it2.loop_stack.append(frame)
+    try:
+        it2.block(scan.body, b, f.module, f, rets)
+    finally:
+        it2.loop_stack.pop()
+    if rets:
+        ck.unknown("P-MUST", fn, "exits of the scan loop", "the loop body returns from the function directly")
+        return
+    for e in frame["breaks"]:
+        outcomes.append(("exit", e))
+    nxt = ([b] if not b.dead else []) + frame.get("continued", [])
+    for e in nxt:
+        outcomes.append(("next", e))
+    D.check_escape(ck, it2, fn + " [one iteration]", allowed=())
+    # ---- the registered-id test: every membership test of the iteration is `<id> in <table>`
+    W0 = T("unpacked", "!H", T("slice", buf, idx, binop("+", idx, C(2)), ty="bytes"), ty="int")
+    pid_ref = binop("&", W0, C(0x1FFF))
+    atoms = {}
+    for _k, e in outcomes:
+        for t in list(e.facts) + list(e.pc) + [e.vars.get(iname), e.vars.get(tname), e.vars.get(qname)]:
+            if t is None:
+                continue
+            for x in subterms(t):
+                if x.k == "op" and x.a[0] in ("in", "notin"):
+                    atoms[x] = True
+    tables = {a.a[2] for a in atoms}
+    ids_seen = {a.a[1] for a in atoms}
+    if not atoms:
+        ck.verdict("D-TABLE", fn, "a position is a packet start exactly when its id is among the registered ids", ["the iteration never tests membership in the registered ids"], "")
+        return
+    probs = []
+    if len(tables) != 1:
+        probs.append(f"{len(tables)} different tables are consulted")
+    table = next(iter(tables))
+    okt = table.k == "call" and table.a[0] == "listcomp" and len(table.a[1]) == 2 and table.a[1][0] == ids_in and D.is_const(table.a[1][1], None) is False \
+        and isinstance(table.a[1][1].a[0], str) and table.a[1][1].a[0].replace(" ", "").endswith(".raw()")
+    if not okt:
+        oc = R.opaque_calls(table)
+        if table.k != "call" or table.a[0] != "listcomp":
+            ck.unknown("D-TABLE", fn, "registered ids are the raw() words of the given packet ids", f"table is {show(table)[:100]}")
+        else:
+            probs.append(f"the table is {show(table)[:100]}, reference [p.raw() for p in {idsname}]")
+    ck.verdict("D-TABLE", fn, "registered ids are the raw() words of the given packet ids; one table", probs, show(table)[:80])
+    ren = {}
+    probs = []
+    for x in ids_seen:
+        if x == pid_ref:
+            continue
+        same = False
+        try:
+            ctx = BitCtx()
+            same = norm_bits(x, 16, ctx) == norm_bits(pid_ref, 16, ctx)
+        except Exception:
+            same = False
+        if not same:
+            st, m = D.prove([binop(">=", idx, C(0)), binop("<=", binop("+", idx, C(6)), L)], binop("==", x, pid_ref))
+            same = st == "proved"
+        if same:
+            ren[x] = pid_ref
+        else:
+            probs.append(f"tested id is {show(x)[:120]}")
+    det = "; ".join(show(x)[:80] for x in ids_seen)
+    if probs and any(R.opaque_calls(x) for x in ids_seen):
+        ck.unknown("W-VAL", fn, "scanned id == (unsigned 16-bit word at idx) & 0x1FFF", "; ".join(probs))
+        return
+    ck.verdict("W-VAL", fn, "scanned id == (unsigned 16-bit word at idx) & 0x1FFF = the 13-bit packet identification of the C01 layout", probs, det)
+    if probs:
+        return
+    M = binop("in", pid_ref, table)
+
+    def sub(t):
+        return substitute(t, ren) if ren and t is not None else t
+    # ---- reference quantities
+    W4 = T("unpacked", "!H", T("slice", buf, binop("+", idx, C(4)), binop("+", idx, C(6)), ty="bytes"), ty="int")
+    total = binop("+", W4, C(7))
+    end = binop("+", idx, total)
+    S = binop(">", binop("+", idx, C(6)), L)
+    notS = binop("<=", binop("+", idx, C(6)), L)
+    Cpl = binop("<=", end, L)
+
+    def norm_in(t):
+        # `x notin T` is stored as such by the interpreter; the entailment procedure knows `in` atoms
+        return t
+
+    def is_tail_list(q, facts):
+        return q.k == "list" and len(q.a[0]) == 1 and slice_is(D.simplify(q.a[0][0], facts), buf, idx, None)
+
+    def is_empty(q):
+        return q.k == "list" and not q.a[0]
+
+    def tm_plus(tm, facts):
+        if tm.k != "listext" or tm.a[0] != tm0 or len(tm.a[2]) != 1:
+            return False
+        x = tm.a[2][0]
+        if tm.a[1] == "extend":
+            if x.k != "list" or len(x.a[0]) != 1:
+                return False
+            x = x.a[0][0]
+        elif tm.a[1] != "append":
+            return False
+        return slice_is(D.simplify(x, facts), buf, idx, end)
+
+    n_exit = n_next = 0
+    for kind, e in outcomes:
+        facts = [sub(x) for x in e.facts]
+        if not D.feasible(facts):
+            continue
+        q, tm, ni = sub(e.vars.get(qname)), sub(e.vars.get(tname)), sub(e.vars.get(iname))
+        where = " and ".join(show(sub(x))[:50] for x in e.pc if not D.is_const(x, True))[:160] or "always"
+        opaque = R.opaque_calls(T("tuple", (q, tm, ni) + tuple(facts)))
+        opaque = [o for o in opaque if o != "listcomp"]
+
+        def verdict(rule, what, problems, how):
+            if problems and opaque:
+                ck.unknown(rule, fn, what, f"built with constructs the analysis does not model ({', '.join(opaque)}): " + "; ".join(problems)[:200])
+            else:
+                ck.verdict(rule, fn, what, problems, how)
+        if kind == "exit":
+            n_exit += 1
+            f_ns = facts + [notS]
+            if D.feasible(f_ns):
+                st, m = D.prove(f_ns, M)
+                ck.verdict3("P-MUST", fn, f"the scan stops with 6 or more octets left only at a registered id [exit under {where}]", st, m, "entailed")
+                st, m = D.prove(f_ns + [M], un("not", Cpl))
+                ck.verdict3("P-MUST", fn, f"the scan stops at a registered id only when its packet is incomplete: idx + (length field + 7) > len(buf) [exit under {where}]", st, m, "entailed")
+            probs = []
+            for case, cf, want in (("fewer than 6 octets left, idx < len(buf)", [S, binop("<", idx, L)], "tail"), ("idx == len(buf)", [S, binop(">=", idx, L)], "empty"),
+                                   ("incomplete packet at a registered id", [notS, M, un("not", Cpl)], "tail")):
+                fc = facts + cf
+                if not D.feasible(fc):
+                    continue
+                qv = resolve(q, fc, {})
+                tv = resolve(tm, fc, {})
+                if want == "tail" and not is_tail_list(qv, fc):
+                    probs.append(f"[{case}] the queue is left as {show(qv)[:100]}; reference [buf[idx:]]")
+                if want == "empty" and not is_empty(qv) and not is_tail_list(qv, fc):
+                    probs.append(f"[{case}] the queue is left as {show(qv)[:100]}; reference: empty")
+                if tv != tm0:
+                    probs.append(f"[{case}] the results become {show(tv)[:100]} on an exit that found no complete packet")
+            verdict("P-MUST", f"exit: the queue is left holding exactly the unconsumed tail buf[idx:] (nothing when idx == len(buf)); no packet is added [exit under {where}]", probs, "queue == [buf[idx:]]")
+        else:
+            n_next += 1
+            st, m = D.prove(facts, notS)
+            ck.verdict3("P-MUST", fn, f"an iteration that continues has a complete 6-octet header at idx: idx + 6 <= len(buf) [under {where}]", st, m, "entailed")
+            fm = facts + [M]
+            if D.feasible(fm):
+                st, m = D.prove(fm, Cpl)
+                ck.verdict3("P-MUST", fn, f"a packet is returned only when it is complete: idx + (length field + 7) <= len(buf) [under {where}]", st, m, "entailed")
+                probs = []
+                fmc = fm + [Cpl]
+                iv, qv, tv = resolve(ni, fmc, {}), resolve(q, fmc, {}), resolve(tm, fmc, {})
+                st2, m2 = D.prove(fmc, binop("==", iv, end))
+                if st2 != "proved":
+                    probs.append(f"index becomes {show(iv)[:80]}; reference idx + (length field + 7)")
+                if not tm_plus(tv, fmc):
+                    probs.append(f"results become {show(tv)[:120]}; reference results + [buf[idx : idx+total]]")
+                if not is_empty(qv):
+                    probs.append(f"the queue is changed on the complete-packet path: {show(qv)[:60]}")
+                verdict("X-PART", f"registered id, complete packet: exactly buf[idx : idx+total] is appended, the index advances by exactly total, the queue stays empty [under {where}]", probs, "append + idx += total")
+            fnm = facts + [un("not", M)]
+            if D.feasible(fnm):
+                probs = []
+                iv, qv, tv = resolve(ni, fnm, {}), resolve(q, fnm, {}), resolve(tm, fnm, {})
+                st2, m2 = D.prove(fnm, binop("==", iv, binop("+", idx, C(1))))
+                if st2 != "proved":
+                    probs.append(f"index becomes {show(iv)[:60]}, reference idx + 1")
+                if tv != tm0:
+                    probs.append(f"results become {show(tv)[:80]} at a position that is not a registered id")
+                if not is_empty(qv):
+                    probs.append(f"the queue is changed: {show(qv)[:60]}")
+                verdict("X-PART", f"a position that is not a registered id is skipped by exactly one octet and nothing else changes [under {where}]", probs, "idx += 1")
+    ck.verdict("P-MUST", fn, "the iteration has both kinds of outcome (leave the loop / continue)", [] if n_exit and n_next else [f"{n_exit} exits, {n_next} continuing paths"], f"{n_exit} exits, {n_next} continuing", nontrivial=False)
+    # ---- after the loop: the result list is returned
+    it3 = new_interp(P); it3.where.append(f.short)
+    e3 = head.clone()
+    rets = []
+    it3.quiet += 1
+    try:
+        it3.block(body[body.index(scan) + 1:], e3, f.module, f, rets)
+    finally:
+        it3.quiet -= 1
+    okr = bool(rets) and e3.dead and all(v == tm0 for _pc, v, _h, _f in rets)
+    ck.verdict("P-MUST", fn, "the packets found are returned (one list, in scan order)", [] if okr else ["the function does not return the result list after the scan"], f"return {tname}")
